@@ -186,6 +186,9 @@ structure Env where
   infoOn : Bool := true        -- the logger's level lets `Info` through
   critOn : Bool := true        -- … `Critical`
   waitOnExit : Bool := true    -- `wait_for_queues_to_empty_before_exit`
+  /-- the handler's wait for its flush request ends when the backend thread is gone (candidate repair of F27,
+      `findings/F27_candidate_repair.diff`; extracted: `flushEndsWhenBackendGone`; the current code waits for ever) -/
+  flushGivesUp : Bool := false
   deriving DecidableEq, Repr, Inhabited
 
 def Fe.log (f : Fe) (x : Item) : Fe := { f with queue := f.queue ++ [x] }
@@ -202,7 +205,10 @@ def exec (e : Env) (sig : Sig) : List Action → (restored pending : Bool) → F
   | .setAlarm :: rest, r, p, f => exec e sig rest r p f
   | .logNotice :: rest, r, p, f => exec e sig rest r p (if e.infoOn then f.log .notice else f)
   | .logCritical :: rest, r, p, f => exec e sig rest r p (if e.critOn then f.log .critical else f)
-  | .flush :: rest, r, p, f => if e.backendRunning then exec e sig rest r p f.drain else (f, .hangs)
+  | .flush :: rest, r, p, f =>
+    if e.backendRunning then exec e sig rest r p f.drain
+    else if e.flushGivesUp then exec e sig rest r p f   -- nobody serves it: the request stays queued, the handler goes on
+    else (f, .hangs)
   | .exitSuccess :: _, _, _, f =>
     -- `exit` → the `atexit` handler → `stop_backend_thread` → `_exit` drain (if enabled) → join
     (if e.backendRunning && e.waitOnExit then f.drain else f, .exit0)
@@ -218,6 +224,37 @@ def exec (e : Env) (sig : Sig) : List Action → (restored pending : Bool) → F
 def notices (e : Env) (s : Sig) : List Item :=
   (if e.infoOn then [.notice] else []) ++ (if s.graceful || !e.critOn then [] else [.critical])
 
+/-! ## a process-directed signal (`kill(pid, sig)`) with several threads
+
+The kernel hands a process-directed signal to *one* thread that does not block it (Linux tries the main thread
+first; any other choice is allowed). The handler distinguishes the receiving thread only by
+`get_thread_id() == backend_thread_id`; whether that thread has a thread context (has logged or preallocated) is
+invisible to it — its first log call creates the context inside the handler. -/
+
+/-- class of the thread the handler runs on -/
+inductive Receiver
+  | logged        -- a frontend thread that has logged before (the premise of the property)
+  | neverLogged   -- a frontend thread without a thread context: nothing of it is queued or written
+  | backend       -- the backend thread
+  deriving DecidableEq, Repr, Inhabited
+
+structure Thr where
+  cls : Receiver
+  blocked : Bool      -- the signal is blocked in this thread's mask
+  deriving DecidableEq, Repr, Inhabited
+
+/-- the threads the kernel may choose -/
+def candidates (ts : List Thr) : List Receiver := (ts.filter fun t => !t.blocked).map (·.cls)
+
+/-- what the handler sees on a thread of class `r` while a backend started with the handler runs (first entrant,
+    a logger exists, re-raise on) -/
+def Receiver.ctx (r : Receiver) (s : Sig) (pr : Bool) : Ctx :=
+  { sig := s, first := true, parkReturns := pr, backendIdSet := true, onBackend := r == .backend, hasLogger := true, reraise := true }
+
+/-- the handler on the receiving thread; `own`: that thread's queue and lines -/
+def killOutcome (e : Env) (s : Sig) (pr : Bool) (r : Receiver) (own : Fe) : Fe × Outcome :=
+  exec e s (onSignal (r.ctx s pr)) false false own
+
 /-! ## start / stop life-cycle -/
 
 /-- structural facts read from the headers -/
@@ -225,6 +262,10 @@ structure LParams where
   renewOnce : Bool         -- `stop_backend_thread` installs a fresh `std::once_flag`
   stopClearsId : Bool      -- `Backend::stop()` resets `SignalHandlerContext::backend_thread_id` (repair of F23)
   atexitClearsId : Bool    -- so does the `atexit` handler registered by the signal-handler overload of `start`
+  /-- not a fact of the headers but the run-time option `BackendOptions::wait_for_queues_to_empty_before_exit` the
+      backend is started with (its default is extracted: `waitForQueuesDefault`). With it off `BackendWorker::_exit`
+      leaves at its first test: no queue is read any more, the failure counter is reported and the sinks are flushed -/
+  waitOnExit : Bool := true
   deriving DecidableEq, Repr, Inhabited
 
 /-- the code as repaired -/
@@ -337,10 +378,12 @@ def Sys.step (P : LParams) (s : Sys) : POp → Sys
   | .bg k => if s.life.running then { s with fe := s.fe.write k } else s
   | .life .stop =>
     -- `_exit` runs on the backend thread before the join: the drain (contract of `exitLoop`)
-    { life := s.life.step P .stop, fe := if s.life.running && !s.life.exited then s.fe.drain else s.fe }
+    -- with the option off `_exit` reads nothing more: what is still queued stays queued (a later `start` serves it)
+    { life := s.life.step P .stop, fe := if s.life.running && !s.life.exited && P.waitOnExit then s.fe.drain else s.fe }
   | .life .exit =>
     -- `atexit` handlers stop a running backend (drain + join); then `~ManualBackendWorker` runs `_exit()` once more
-    { life := s.life.step P .exit, fe := if s.life.exited then s.fe else s.fe.drain }
+    -- (`_options` of the worker are those of the last `start`; a worker that was never started has the defaults: drains)
+    { life := s.life.step P .exit, fe := if s.life.exited then s.fe else if P.waitOnExit || s.life.spawned == 0 then s.fe.drain else s.fe }
   | .life op => { s with life := s.life.step P op }
 
 def Sys.run (P : LParams) (s : Sys) (ops : List POp) : Sys := ops.foldl (Sys.step P) s
